@@ -71,6 +71,7 @@ static lltd_iface_state *lltd_state_for_iface(void *iface_ctx) {
     lltd_port_memset(st, 0, sizeof(*st));
     st->iface_ctx = iface_ctx;
     st->next = g_iface_states;
+    LLTD_VERIF_POINT("iface_state:link", iface_ctx);
     g_iface_states = st;
     return st;
 }
